@@ -613,3 +613,7 @@ CHECKS['C10']['technique'] += '; plus exhaustive single-fault injection into the
 _c = CHECKS['C09']
 _c['units'] = (lambda prev: (lambda tier: prev(tier) + [unit('faults-san', 'seq/faults.cpp', 'san')]))(_c['units'])
 _c['level_text'] += ' The fault-position explorer (E6: every position of a throwing scalar operation inside 16 mutating operations) runs under the same sanitizer build (unwinding through half-built results).'
+
+# thorough deadlines: the pool fixpoint (about 25 min on a quiet machine) plus the call-sequence units at depth 4
+CHECKS['C14']['deadline'] = dict(quick=600, thorough=4500)
+CHECKS['C10']['deadline'] = dict(quick=600, thorough=3600)
